@@ -118,6 +118,8 @@ def run_ob(spec):
 def _model_of(model, v):
     if isinstance(v, symex.Sym):
         return model_value(model, v.t)
+    if isinstance(v, symex.SymStr) and v.has_free():
+        return symex.free_value(model, v)
     if isinstance(v, (list, tuple)):
         return [_model_of(model, x) for x in v]
     if isinstance(v, dict):
@@ -156,18 +158,30 @@ def _replay(H, cfg, patches, cex):
         for m in H.modules:
             LN.load(m)
         nctx = H.build(LN, cfg)
-        ins = H.native_inputs({k: _native_deep(v) for k, v in cex.items()}) if hasattr(H, 'native_inputs') else cex
-        try:
-            ok = H.prop(nctx, cfg, **ins)
-        except H.allowed(nctx) as e:
-            return False, 'native run refused the input (%s)' % type(e).__name__
-        except Exception as e:
-            return True, 'native run raised %s: %s' % (type(e).__name__, e)
-        if ok:
-            return False, 'predicate holds on the native code for the model values (model artefact)'
-        return True, 'predicate false on the native code'
+        ins0 = H.native_inputs({k: _native_deep(v) for k, v in cex.items()}) if hasattr(H, 'native_inputs') else cex
+        # a harness may offer concrete strengthenings of the model (e.g. turn "a separator survives
+        # sanitising" into an actual escaping value); each candidate is judged by the real code only
+        variants = [ins0] + (list(H.native_variants(ins0)) if hasattr(H, 'native_variants') else [])
+        last = ''
+        for i, ins in enumerate(variants):
+            try:
+                ok = H.prop(nctx, cfg, **ins)
+            except H.allowed(nctx) as e:
+                last = 'native run refused the input (%s)' % type(e).__name__
+                continue
+            except Exception as e:
+                return True, 'native run raised %s: %s%s' % (type(e).__name__, e, _variant_note(i, ins))
+            if ok:
+                last = 'predicate holds on the native code for the model values (model artefact)'
+                continue
+            return True, 'predicate false on the native code' + _variant_note(i, ins)
+        return False, last
     except Exception as e:  # harness trouble
         return False, 'replay harness error %s: %s' % (type(e).__name__, e)
+
+
+def _variant_note(i, ins):
+    return '' if i == 0 else ' (strengthened input: %s)' % json.dumps(ins, default=str)[:300]
 
 
 def replay(body):
